@@ -240,6 +240,18 @@ class SimRaw(io.RawIOBase):
             if path not in fs.files:
                 raise FileNotFoundError(errno.ENOENT, "sim: no such file or directory", path)
 
+    def fileno(self):
+        # code under test may flush and os.fsync(f.fileno()): hand out a descriptor the OS seam recognises
+        if self.fd is None:
+            fs = self.fs
+            self.fd = fs._next_fd
+            fs._next_fd += 1
+            fs.fds[self.fd] = {"path": self.path, "flags": os.O_RDWR}
+        return self.fd
+
+    def isatty(self):
+        return False
+
     def readable(self):
         return self._readable
 
